@@ -682,6 +682,11 @@ def check_C11(chk, tier):
         run_phase(chk, "gsequ+laqgs/" + prec, H + "h_equil.c", list(dict.fromkeys(cs)), ["C11."], prec=prec, budget_s=200 if q else 1500, validate_samples=2,
                   bounds="m x n <= 3x3: all patterns up to 2x2, selected 3x3; fully symbolic up to 2 stored entries, otherwise one symbolic column (rest generic concrete); empty rows/columns at every position",
                   qtimeout_ms=5000 if q else 60000, env=CPLX_ENV if cplx else None)
+    if q:   # single precision (real and complex) on a reduced case set: the safe-range constants and thresholds differ per precision
+        for prec in ("s", "c"):
+            cs = [(m, n, hex(pat), 1 << sc) for m, n in ((1, 1), (1, 2), (2, 1), (2, 2)) for pat in C.all_patterns(m, n) if pat for sc in range(n)] + [(1, 1, "0x1", -1), (2, 1, "0x3", -1), (1, 2, "0x3", -1)]
+            run_phase(chk, "gsequ+laqgs/" + prec, H + "h_equil.c", list(dict.fromkeys(cs)), ["C11."], prec=prec, budget_s=60, validate_samples=0, bounds="m x n <= 2x2, all patterns, one symbolic column (rest generic concrete) or fully symbolic with <= 2 entries",
+                      qtimeout_ms=5000, env=CPLX_ENV if prec == "c" else None)
 
 
 # ------------------------------------------------------------------------------------------------ C12 condition estimate / growth
